@@ -15,6 +15,10 @@ CHECKS = {
 }
 CHECKS["C09"] = ("machine-checked proof (Lean 4 + Mathlib, real analysis / list induction) about an executable model, tied to the code by correspondence testing and a direct property oracle",
     "Proof (Lean 4, kernel-checked) over R of: mutual inverses, branch consistency at N = 10^3 and at the endurance knee, continuity, strict antitonicity in the finite range and infinity at/below endurance for the P_RAM and P_RAJ component Woehler curves; the P_RAM formula with the guideline mean-stress factor and constants; lifetime = literal damage accumulation (x = (1-D1)/D2 unique, 1+x passes, early-failure index = first prefix sum >= 1, by list induction); the three gamma_L formulas against restated guideline definitions. The safety index is partial: beta = -(unique root of Phi(x) = P_A) for abstract strictly increasing Phi; convergence of scipy's root search is measured per run. The model is hand-written and tied to the code by differential testing (bit-exact for constants, P_RAM rows and dyadic damage tables, 1e-11 otherwise) plus a direct property oracle.", "5 C09")
+CHECKS["C08"] = ("Lean 4 machine-checked proof over R about an executable model + compiled-model/implementation correspondence + direct property oracle",
+    "22 Lean-4 theorems over R about an executable model of woehlercurve.py (_make_k, basquin_cycles/basquin_load, transform_to_failure_probability, Miner modifiers, TN/TS defaults) and of the scatter conversions, for every k1>1, k2>=k1 or inf, SD, ND>0, TN, TS>=1, every failure probability and positive load/cycle number: cycles/load inverses with branch consistency across the knee, antitonicity, continuity at the knee, log-log slopes, infinite life for k2=inf, Miner variants, monotonicity in pf, N90/N10 and SD90/SD10 as powers TN^(2 z c), TS^(2 z c) (= TN, TS under 2 z c = 1; N90/N10 = TN proved for L >= SD90, exact ratio below the knee proved as well), transform composition and native identity, scatter conversions. The normal quantile is abstract (strictly increasing, odd). Tied to the code on every run by differential comparison (rtol 1e-11) of scalar, array, Series and DataFrame calls incl. exactly SD/ND; the property's relations are evaluated directly on the real code.", "5 C08")
+CHECKS["C14"] = ("machine-checked proof (Lean 4 / Mathlib, induction over edge and break lists, ordered-field algebra) + compiled-model correspondence + direct property oracle",
+    "Lean 4 proofs over R for an executable model of LoadCollective/LoadHistogram, numpy's bin rule, rebin_histogram and combine_histogram: consistency identities, from/to <-> range/mean round trips, scale/shift equivariance with cycles untouched; exactly-one-class and sum of contents = cycles in range for 1-D/2-D histograms over any weakly increasing edge list (induction over edges); range histogram = marginal; re-bin total conservation for any gap-free covering target and positive-width source classes, identity on the own binning, kernel-checked refutation of literal composition plus proofs that composition conserves the total and that A->B->C = A->C when B refines A; combine-by-sum conserves the grand total. The model describes the repaired code (four fix: commits) and is tied to it by bit-exact correspondence on an exhaustive small scope plus seeded random cases; a model-independent oracle evaluates the relations on the real code.", "5 C14")
 PENDING = {}
 def main():
     props = [json.loads(l) for l in open(os.path.join(HERE, "properties.jsonl"))]
